@@ -100,3 +100,47 @@ fn builder_order_search() {
     }
     println!("builder order search: {} insertion orders, no disagreement", count);
 }
+
+/// C01 / C17 (not C11): their quantifier includes REPEATED positions, and "consecutive keyframes"
+/// then needs an order among keyframes sharing a position; the only order a user controls is the
+/// order they were added in (the `jump` idiom: two keyframes at the same position, old value then
+/// new value).  So for these two properties the builder must keep insertion order among equal
+/// positions.  Scope: 2..=96 keyframes, positions on a 1/8 grid (many repeats), 300 pseudo-random
+/// insertion orders per size (fixed seed) - std's unstable sort only starts reordering equal
+/// elements above its small-sort threshold, far beyond what the Kani harnesses can unwind.
+fn check_stable(order: &[(f32, u32)]) {
+    let mut cfg: TimelineConfiguration<u32> = TimelineConfiguration::default();
+    for &(t, tag) in order {
+        cfg = cfg.keyframe(TagBuilder { t, tag });
+    }
+    let args = TimelineBuilderArguments::from(cfg);
+    let mut expect: Vec<(f32, u32)> = order.to_vec();
+    expect.sort_by(|a, b| a.0.total_cmp(&b.0)); // stable
+    let got: Vec<(f32, u32)> = args.keyframes.iter().map(|k| (k.normalized_time, k.data)).collect();
+    assert!(
+        got == expect,
+        "keyframes sharing a position did not keep the order they were added in\n  {} keyframes (position, tag = insertion index) in insertion order = {:?}\n  expected (stable by position) = {:?}\n  got = {:?}",
+        order.len(), order, expect, got
+    );
+}
+
+#[test]
+fn builder_stable_search() {
+    let mut seed = 0x2545F4914F6CDD1Du64;
+    let mut next = move || {
+        seed ^= seed << 13;
+        seed ^= seed >> 7;
+        seed ^= seed << 17;
+        seed
+    };
+    let mut count = 0u64;
+    for n in 2..=96usize {
+        for _ in 0..300 {
+            let v: Vec<(f32, u32)> = (0..n).map(|i| ((next() % 9) as f32 / 8.0, i as u32)).collect();
+            check_stable(&v);
+            count += 1;
+        }
+    }
+    println!("builder stable-order search: {} insertion orders, no disagreement", count);
+}
+
